@@ -51,7 +51,7 @@ impl DefaultMetricLogReader {
             let count = buf_reader.read_line(&mut line)?;
             if count == 0 {
                 let should_continue = (prev_size + items.len()) < max_lines;
-                return Ok((Vec::new(), should_continue));
+                return Ok((items, should_continue));
             }
             let item = base::MetricItem::from_string(&line);
 
